@@ -120,7 +120,7 @@ func specStep(s specState, e cEvent) (specState, bool) {
 			delete(n, e.op.g)
 		}
 		return n, true
-	case "like", "mkindex":
+	case "like", "mkindex", "sharedcount":
 		return s, true
 	case "incr": // read-modify-write of document 0 of batch g: v := v + 1 (absent document: UpdateById reports an error)
 		if e.res.err {
@@ -132,6 +132,15 @@ func specStep(s specState, e cEvent) (specState, bool) {
 		}
 		n := s.clone()
 		n[e.op.g][0] = v + 1
+		return n, true
+	case "bulkincr": // UpdateFunc over batch g: v := v + 1 on every document of the batch
+		if e.res.err {
+			return s, true
+		}
+		n := s.clone()
+		for k, v := range n[e.op.g] {
+			n[e.op.g][k] = v + 1
+		}
 		return n, true
 	case "get": // FindById of document 0 of batch g: absent (count 0) or present with value v (count 1)
 		if e.res.err {
@@ -241,6 +250,8 @@ func runConcStream(seed int64, n int, out, backendSpec string) *RunReport {
 					case 8:
 						if g.Chance(0.35) {
 							plans[c] = append(plans[c], cOp{kind: "mkindex", g: g.Intn(3)})
+						} else if g.Chance(0.5) {
+							plans[c] = append(plans[c], cOp{kind: "bulkincr", g: 1 + g.Intn(int(nextG)+1)})
 						} else {
 							plans[c] = append(plans[c], cOp{kind: "incr", g: 1 + g.Intn(int(nextG)+1)})
 						}
@@ -255,7 +266,11 @@ func runConcStream(seed int64, n int, out, backendSpec string) *RunReport {
 							plans[c] = append(plans[c], cOp{kind: "del", g: 1 + g.Intn(int(nextG)+1)})
 						}
 					case 4:
-						plans[c] = append(plans[c], cOp{kind: "like", g: c*10 + j})
+						if g.Bool() {
+							plans[c] = append(plans[c], cOp{kind: "sharedcount"})
+						} else {
+							plans[c] = append(plans[c], cOp{kind: "like", g: c*10 + j})
+						}
 					default:
 						if g.Bool() {
 							plans[c] = append(plans[c], cOp{kind: "count"})
@@ -265,6 +280,9 @@ func runConcStream(seed int64, n int, out, backendSpec string) *RunReport {
 					}
 				}
 			}
+			// one query object shared by every goroutine: In operands in Go kinds the library has to normalise
+			sharedQ := query.NewQuery("c").Where(query.Field("g").In(int(1), int8(2), uint16(3), float32(4)).Or(query.Field("k").Contains(int(0))))
+			sharedPrint := critFingerprint(sharedQ.Criteria())
 			incrTargets := map[int]bool{}
 			for _, pl := range plans {
 				for _, op := range pl {
@@ -305,6 +323,13 @@ func runConcStream(seed int64, n int, out, backendSpec string) *RunReport {
 								cp.Set("v", v+1)
 								return cp
 							}) != nil
+						case "bulkincr":
+							ev.res.err = db.UpdateFunc(query.NewQuery("c").Where(query.Field("g").Eq(op.g)), func(doc *d.Document) *d.Document {
+								cp := doc.Copy()
+								v, _ := doc.Get("v").(int64)
+								cp.Set("v", v+1)
+								return cp
+							}) != nil
 						case "mkindex":
 							// an index created while writers are active must still cover every document
 							ev.res.err = db.CreateIndex("c", []string{"k", "v", "tag"}[op.g]) != nil
@@ -326,6 +351,9 @@ func runConcStream(seed int64, n int, out, backendSpec string) *RunReport {
 						case "count":
 							cnt, err := db.Count(query.NewQuery("c"))
 							ev.res.err, ev.res.count = err != nil, cnt
+						case "sharedcount":
+							_, err := db.Count(sharedQ)
+							ev.res.err = err != nil
 						case "like":
 							// a regexp criteria private to this goroutine (shared caches inside the library would race)
 							_, err := db.FindAll(query.NewQuery("c").Where(query.Field("tag").Like(fmt.Sprintf("^t%d.*", op.g)).Or(query.Field("g").Eq(op.g))))
@@ -367,6 +395,9 @@ func runConcStream(seed int64, n int, out, backendSpec string) *RunReport {
 			if !okDone {
 				f.failf("concurrent workload deadlocked on %s (%d clients)", be, nclients)
 				continue
+			}
+			if fp := critFingerprint(sharedQ.Criteria()); fp != sharedPrint {
+				f.failf("a query object shared by the goroutines was modified by the reads on %s: %s became %s", be, clip(sharedPrint, 200), clip(fp, 200))
 			}
 			if partial == 1 {
 				f.failf("a reader observed a partially applied bulk update on %s (%d clients, round seed %d)", be, nclients, seed*313+int64(round))
@@ -442,6 +473,185 @@ func runConcStream(seed int64, n int, out, backendSpec string) *RunReport {
 			if len(samples) < 3 {
 				samples = append(samples, map[string]interface{}{"backend": be, "clients": nclients, "operations": len(events), "rejected_by_store": nerr})
 			}
+			env.destroy()
+		}
+	}
+	// catalog race: several goroutines create the same collection, fill and index it; exactly one creation succeeds, and
+	// afterwards counter, documents and index agree (a creation that lost the race must not reset what the winner built)
+	for round := 0; round < n; round++ {
+		for _, be := range backendsOf(backendSpec) {
+			env, err := newEnv(be)
+			if err != nil {
+				continue
+			}
+			env.st.yield = true
+			db := env.db
+			const workers = 5
+			var created, inserted, indexed int32
+			var wg sync.WaitGroup
+			for w := 0; w < workers; w++ {
+				wg.Add(1)
+				go func(w int) {
+					defer wg.Done()
+					defer func() { recover() }()
+					if db.CreateCollection("race") == nil {
+						atomic.AddInt32(&created, 1)
+					}
+					for k := 0; k < 2; k++ {
+						if db.Insert("race", d.NewDocumentOf(map[string]interface{}{"_id": concId(700+w, k), "k": int64(k), "w": int64(w)})) == nil {
+							atomic.AddInt32(&inserted, 1)
+						}
+					}
+					if db.CreateIndex("race", "k") == nil {
+						atomic.AddInt32(&indexed, 1)
+					}
+				}(w)
+			}
+			okDone := withDeadline(60*time.Second, func() { wg.Wait() })
+			evals += workers
+			if !okDone {
+				f.failf("catalog race workload deadlocked on %s", be)
+				continue
+			}
+			if created != 1 {
+				f.failf("%d of %d concurrent CreateCollection calls for one name succeeded on %s", created, workers, be)
+			}
+			all, _ := db.FindAll(query.NewQuery("race"))
+			cnt, _ := db.Count(query.NewQuery("race"))
+			if cnt != len(all) || len(all) != int(inserted) {
+				f.failf("after concurrent creation of one collection: %d inserts succeeded, FindAll returns %d, Count %d on %s", inserted, len(all), cnt, be)
+			}
+			has, _ := db.HasIndex("race", "k")
+			if (indexed > 0) != has {
+				f.failf("after concurrent creation: %d CreateIndex calls succeeded but HasIndex = %v on %s", indexed, has, be)
+			}
+			if has {
+				via, _ := db.FindAll(query.NewQuery("race").Sort(query.SortOption{Field: "k", Direction: 1}))
+				if len(via) != len(all) {
+					f.failf("after concurrent creation the index serves %d of %d documents on %s", len(via), len(all), be)
+				}
+			}
+			distinct[fmt.Sprintf("%s/catalograce", be)] = true
+			env.destroy()
+		}
+	}
+	// several goroutines evaluating regexp criteria at once (fresh patterns each time), and several deleting the same document
+	// at once: no shared state may be raced on, and the counter must follow the documents
+	for round := 0; round < 3 && round < n; round++ {
+		for _, be := range backendsOf(backendSpec) {
+			env, err := newEnv(be)
+			if err != nil {
+				continue
+			}
+			env.st.yield = true
+			db := env.db
+			db.CreateCollection("p")
+			db.CreateIndex("p", "k")
+			for k := 0; k < 6; k++ {
+				db.Insert("p", d.NewDocumentOf(map[string]interface{}{"_id": concId(800, k), "k": int64(k), "tag": fmt.Sprintf("t%d", k)}))
+			}
+			var wg sync.WaitGroup
+			var likeErrs, delOk int32
+			for w := 0; w < 4; w++ {
+				wg.Add(1)
+				go func(w int) {
+					defer wg.Done()
+					defer func() {
+						if r := recover(); r != nil {
+							f.failf("panic in a concurrent Like / DeleteById on %s: %v", be, r)
+						}
+					}()
+					for i := 0; i < 6; i++ {
+						pat := fmt.Sprintf("^t[%d-%d]x*%d?$", i%5, 5+w, round)
+						if _, err := db.FindAll(query.NewQuery("p").Where(query.Field("tag").Like(pat))); err != nil {
+							atomic.AddInt32(&likeErrs, 1)
+						}
+						if i == 2 {
+							if db.DeleteById("p", concId(800, 3)) == nil {
+								atomic.AddInt32(&delOk, 1)
+							}
+						}
+					}
+				}(w)
+			}
+			okDone := withDeadline(60*time.Second, func() { wg.Wait() })
+			evals += 4 * 7
+			if !okDone {
+				f.failf("concurrent Like / DeleteById workload deadlocked on %s", be)
+				continue
+			}
+			all, _ := db.FindAll(query.NewQuery("p"))
+			cnt, _ := db.Count(query.NewQuery("p"))
+			via, _ := db.FindAll(query.NewQuery("p").Sort(query.SortOption{Field: "k", Direction: 1}))
+			if len(all) != 5 || cnt != 5 || len(via) != 5 {
+				f.failf("after 4 concurrent DeleteById of one document (of 6): FindAll returns %d, Count %d, the index %d on %s", len(all), cnt, len(via), be)
+			}
+			if likeErrs > 0 {
+				f.failf("%d Like queries failed under concurrency on %s", likeErrs, be)
+			}
+			distinct[fmt.Sprintf("%s/likedelrace", be)] = true
+			env.destroy()
+		}
+	}
+	// read-modify-write race: goroutines increment a counter through UpdateFunc (bulk) and UpdateById at once; every call that
+	// reports success must be reflected exactly once (a conflicting one must report an error and change nothing)
+	for round := 0; round < 3 && round < n; round++ {
+		for _, be := range backendsOf(backendSpec) {
+			env, err := newEnv(be)
+			if err != nil {
+				continue
+			}
+			env.st.yield = true
+			db := env.db
+			db.CreateCollection("r")
+			if round%2 == 0 {
+				db.CreateIndex("r", "v")
+			}
+			for k := 0; k < 3; k++ {
+				db.Insert("r", d.NewDocumentOf(map[string]interface{}{"_id": concId(850, k), "k": int64(k), "v": int64(0)}))
+			}
+			incr := func(doc *d.Document) *d.Document {
+				cp := doc.Copy()
+				v, _ := doc.Get("v").(int64)
+				cp.Set("v", v+1)
+				return cp
+			}
+			var bulkOk, oneOk int32
+			var wg sync.WaitGroup
+			for w := 0; w < 4; w++ {
+				wg.Add(1)
+				go func(w int) {
+					defer wg.Done()
+					defer func() { recover() }()
+					for i := 0; i < 3; i++ {
+						if db.UpdateFunc(query.NewQuery("r"), incr) == nil {
+							atomic.AddInt32(&bulkOk, 1)
+						}
+						if db.UpdateById("r", concId(850, 0), incr) == nil {
+							atomic.AddInt32(&oneOk, 1)
+						}
+					}
+				}(w)
+			}
+			okDone := withDeadline(60*time.Second, func() { wg.Wait() })
+			evals += 24
+			if !okDone {
+				f.failf("read-modify-write workload deadlocked on %s", be)
+				continue
+			}
+			for k := 0; k < 3; k++ {
+				doc, _ := db.FindById("r", concId(850, k))
+				want := int64(bulkOk)
+				if k == 0 {
+					want += int64(oneOk)
+				}
+				if doc == nil {
+					f.failf("document %d vanished during concurrent updates on %s", k, be)
+				} else if v, _ := doc.Get("v").(int64); v != want {
+					f.failf("after %d successful bulk increments and %d successful single increments document %d holds v=%d instead of %d on %s (an update was lost or applied twice)", bulkOk, oneOk, k, v, want, be)
+				}
+			}
+			distinct[fmt.Sprintf("%s/rmwrace", be)] = true
 			env.destroy()
 		}
 	}
